@@ -485,6 +485,9 @@ double RescaledHmmLikelihood::getDLogLikelihoodForASite(size_t site) const
 
 void RescaledHmmLikelihood::computeD2Forward_() const
 {
+  // Make sure that the first order terms are computed for the same variable
+  getFirstOrderDerivative(d2Variable_);
+
   // Init arrays:
   if (d2Likelihood_.size() == 0)
   {
